@@ -76,9 +76,59 @@ enum Lvl {
     /// a documented text (possibly padded with ASCII whitespace) or the typed level, carried to the
     /// filter some other way; must be read exactly like the plain text / typed value
     Carried(Carrier, String, usize),
-    /// present but no documented form: outcome not judged
+    /// present, and by no reading a level (empty / unknown word / malformed text / number / bool /
+    /// null): the event is without a level, so the configured default applies, else Info
+    Unreadable(Unreadable),
+    /// present, not a documented form, but the lenient parser may still read a level out of it
+    /// ("info warn", random text starting with a level letter): outcome not judged
     Junk(String),
-    Number(i64),
+}
+
+/// A `lvl` value that cannot be read as a level.
+#[derive(Clone, Debug, PartialEq, Eq, Hash)]
+enum Unreadable {
+    Empty,
+    /// a word that is no prefix of any level name or abbreviation
+    Word(String),
+    /// text that does not start with a letter, or has a control character after the letters
+    Malformed(String),
+    NumericText(String),
+    Int(i64),
+    /// the float n + 0.5
+    Float(i32),
+    Bool(bool),
+    Null,
+}
+
+impl Unreadable {
+    fn kind(&self) -> &'static str {
+        match self {
+            Unreadable::Empty => "empty-text",
+            Unreadable::Word(_) => "unknown-word",
+            Unreadable::Malformed(_) => "malformed-text",
+            Unreadable::NumericText(_) => "numeric-text",
+            Unreadable::Int(_) => "integer",
+            Unreadable::Float(_) => "float",
+            Unreadable::Bool(_) => "bool",
+            Unreadable::Null => "null",
+        }
+    }
+}
+
+const UNKNOWN_WORDS: [&str; 14] = ["trace", "verbose", "fatal", "critical", "notice", "off", "none", "xyz", "infox", "erroneous", "dbug", "warm", "ifo", "TRACE"];
+const MALFORMED: [&str; 6] = ["1info", "é", "warn\u{7}", "(info)", "-", "_debug"];
+
+fn gen_unreadable(g: &mut Rng) -> Unreadable {
+    match g.below(10) {
+        0 => Unreadable::Empty,
+        1..=2 => Unreadable::Word(g.pick(&UNKNOWN_WORDS).to_string()),
+        3 => Unreadable::Malformed(g.pick(&MALFORMED).to_string()),
+        4 => Unreadable::NumericText(g.pick(&["3", "17", "-1", "0"]).to_string()),
+        5..=6 => Unreadable::Int(g.irange(-3, 40)),
+        7 => Unreadable::Float(g.irange(-2, 5) as i32),
+        8 => Unreadable::Bool(g.bool()),
+        _ => Unreadable::Null,
+    }
 }
 
 /// How a level reaches the filter.
@@ -195,16 +245,23 @@ impl Lvl {
             Lvl::Text(..) => "text",
             Lvl::OwnedText(..) => "owned-text",
             Lvl::Junk(_) => "junk",
-            Lvl::Number(_) => "number",
+            Lvl::Unreadable(_) => "unreadable",
+        }
+    }
+
+    fn unreadable_kind(&self) -> Option<&'static str> {
+        match self {
+            Lvl::Unreadable(u) => Some(u.kind()),
+            _ => None,
         }
     }
 
     /// `Some(Some(level))` = leveled, `Some(None)` = without a level, `None` = not settled by the statement.
     fn denotes(&self) -> Option<Option<usize>> {
         match self {
-            Lvl::Missing => Some(None),
+            Lvl::Missing | Lvl::Unreadable(_) => Some(None),
             Lvl::Typed(l) | Lvl::Text(_, l) | Lvl::OwnedText(_, l) | Lvl::Carried(_, _, l) => Some(Some(*l)),
-            Lvl::Junk(_) | Lvl::Number(_) => None,
+            Lvl::Junk(_) => None,
         }
     }
 }
@@ -250,7 +307,21 @@ fn gen_path(g: &mut Rng, max: usize) -> String {
 }
 
 fn gen_rule(g: &mut Rng) -> Rule {
+    // a third of the rules put the configured unleveled default and Info on different sides of the minimum
+    if g.chance(1, 3) {
+        let min = 1 + g.usize(3);
+        let unleveled = if min == 1 { 0 } else { min + g.usize(4 - min) };
+        return Rule { min, unleveled: Some(unleveled) };
+    }
     Rule { min: g.usize(4), unleveled: if g.chance(1, 3) { Some(g.usize(4)) } else { None } }
+}
+
+/// Does the configured unleveled default decide differently from Info under this rule?
+fn default_differs_from_info(rule: &Rule) -> bool {
+    match rule.unleveled {
+        Some(d) => (d >= rule.min) != (1 >= rule.min),
+        None => false,
+    }
 }
 
 fn gen_text_level(g: &mut Rng) -> (String, usize) {
@@ -282,14 +353,9 @@ fn gen_text_level(g: &mut Rng) -> (String, usize) {
 }
 
 fn gen_junk(g: &mut Rng) -> String {
-    match g.below(8) {
-        0 => String::new(),
-        1 => "info warn".to_string(),
-        2 => "infox".to_string(),
-        3 => "verbose".to_string(),
-        4 => "é".to_string(),
-        5 => "warn\u{7}".to_string(),
-        6 => "1info".to_string(),
+    match g.below(4) {
+        0 => "info warn".to_string(),
+        1 => "e rror".to_string(),
         _ => {
             let n = g.usize(6);
             (0..n).map(|_| char::from_u32(g.below(0x250) as u32).unwrap_or('?')).collect()
@@ -332,8 +398,8 @@ fn gen_lvl(g: &mut Rng) -> Lvl {
             let (s, l) = gen_text_level(g);
             Lvl::OwnedText(s, l)
         }
-        16..=17 => Lvl::Junk(gen_junk(g)),
-        _ => Lvl::Number(g.irange(-3, 40)),
+        16 => Lvl::Junk(gen_junk(g)),
+        _ => Lvl::Unreadable(gen_unreadable(g)),
     }
 }
 
@@ -441,19 +507,19 @@ fn build_map(regs: &[(String, Rule)], default: &Option<Rule>, statics: bool) -> 
 }
 
 /// Evaluate `f` on the event described by (module, lvl) through the generic and erased paths.
-fn eval_views<F: Filter + Send + Sync + 'static>(f: &F, module: &str, static_mdl: bool, lvl: &Lvl, extra_first: bool) -> Result<Vec<(&'static str, bool)>, String> {
-    /// The four views of one filter on one event.
-    fn answers<F: Filter + Send + Sync + 'static, P: Props>(f: &F, mdl: Path, props: P) -> Vec<(&'static str, bool)> {
-        let evt = Event::new(mdl, Template::literal("c17"), Empty, props);
-        let boxed: Box<dyn ErasedFilter + Send + Sync + '_> = Box::new(f);
-        vec![
-            ("generic", f.matches(&evt)),
-            ("ref-dyn", (f as &dyn ErasedFilter).matches(&evt)),
-            ("box-dyn", boxed.matches(&evt)),
-            ("erased-event", f.matches(evt.erase())),
-        ]
-    }
+/// The four views of one filter on one event.
+fn answers<F: Filter + Send + Sync + 'static, P: Props>(f: &F, mdl: Path, props: P) -> Vec<(&'static str, bool)> {
+    let evt = Event::new(mdl, Template::literal("c17"), Empty, props);
+    let boxed: Box<dyn ErasedFilter + Send + Sync + '_> = Box::new(f);
+    vec![
+        ("generic", f.matches(&evt)),
+        ("ref-dyn", (f as &dyn ErasedFilter).matches(&evt)),
+        ("box-dyn", boxed.matches(&evt)),
+        ("erased-event", f.matches(evt.erase())),
+    ]
+}
 
+fn eval_views<F: Filter + Send + Sync + 'static>(f: &F, module: &str, static_mdl: bool, lvl: &Lvl, extra_first: bool) -> Result<Vec<(&'static str, bool)>, String> {
     catch(|| {
         let mdl = if static_mdl { real_path(module, true) } else { Path::new_ref_raw(module) };
         // other properties around the level, before or after it
@@ -489,7 +555,14 @@ fn eval_views<F: Filter + Send + Sync + 'static>(f: &F, module: &str, static_mdl
             }
             Lvl::Text(s, _) | Lvl::Junk(s) => Some(Value::from(s.as_str())),
             Lvl::OwnedText(s, _) => Some(Value::from(s)),
-            Lvl::Number(n) => Some(Value::from(*n)),
+            Lvl::Unreadable(u) => Some(match u {
+                Unreadable::Empty => Value::from(""),
+                Unreadable::Word(s) | Unreadable::Malformed(s) | Unreadable::NumericText(s) => Value::from(s.as_str()),
+                Unreadable::Int(n) => Value::from(*n),
+                Unreadable::Float(n) => Value::from(*n as f64 + 0.5),
+                Unreadable::Bool(b) => Value::from(*b),
+                Unreadable::Null => Value::null(),
+            }),
             Lvl::Carried(c, s, l) => Some(match c {
                 Carrier::Padded => Value::from(s.as_str()),
                 Carrier::PaddedOwned => Value::from(s),
@@ -627,13 +700,22 @@ fn map_case(r: &mut Report, seed: u64, index: u64) {
             Some(want) => {
                 r.observe(if want { "path-map:judged-accept" } else { "path-map:judged-reject" }, 1);
                 r.observe(&format!("path-map:relation:{}", relation), 1);
+                if let (Some(kind), Some(rule)) = (lvl.unreadable_kind(), rule) {
+                    r.observe(&format!("unreadable-level:path-map:judged:{}", kind), 1);
+                    if default_differs_from_info(rule) {
+                        r.observe(&format!("unreadable-level:path-map:{}:default-and-info-on-different-sides", source), 1);
+                    }
+                }
                 if source == "registered" {
                     r.nontrivial(&(&dedup, &default, &module, &lvl));
                 }
                 for (view, got) in &answers {
                     if *got != want {
                         r.violation(
-                            &format!("C17:path-map:{}:{}:{}:{}", if want { "rejects" } else { "accepts" }, source, relation, view),
+                            &match lvl.unreadable_kind() {
+                                Some(kind) => format!("C17:min-level:unreadable-level:{}:path-map:{}:{}", kind, source, if want { "rejects" } else { "accepts" }),
+                                None => format!("C17:path-map:{}:{}:{}:{}", if want { "rejects" } else { "accepts" }, source, relation, view),
+                            },
                             &format!(
                                 "module {:?} lvl {:?}: {} answered {}, the rule in effect ({:?}, from {}) says {}",
                                 module, lvl, view, got, rule, source, want
@@ -685,6 +767,12 @@ fn filter_case(r: &mut Report, seed: u64, index: u64) {
             Some(want) => {
                 r.observe(if want { "min-level-filter:judged-accept" } else { "min-level-filter:judged-reject" }, 1);
                 r.nontrivial(&("filter", &rule, &lvl));
+                if let Some(kind) = lvl.unreadable_kind() {
+                    r.observe(&format!("unreadable-level:filter:judged:{}", kind), 1);
+                    if default_differs_from_info(&rule) {
+                        r.observe("unreadable-level:filter:default-and-info-on-different-sides", 1);
+                    }
+                }
                 for (view, got) in &answers {
                     if *got != want {
                         let boundary = match lvl.denotes() {
@@ -695,7 +783,10 @@ fn filter_case(r: &mut Report, seed: u64, index: u64) {
                             _ => "unleveled-info",
                         };
                         r.violation(
-                            &format!("C17:min-level-filter:{}:{}:{}:{}", if want { "rejects" } else { "accepts" }, lvl.class(), boundary, view),
+                            &match lvl.unreadable_kind() {
+                                Some(kind) => format!("C17:min-level:unreadable-level:{}:filter:{}:{}", kind, boundary, if want { "rejects" } else { "accepts" }),
+                                None => format!("C17:min-level-filter:{}:{}:{}:{}", if want { "rejects" } else { "accepts" }, lvl.class(), boundary, view),
+                            },
                             &format!("lvl {:?} against {:?}: {} answered {}, expected {}", lvl, rule, view, got, want),
                             case(),
                         );
@@ -711,6 +802,200 @@ fn filter_case(r: &mut Report, seed: u64, index: u64) {
             }
         }
     }
+}
+
+
+// ---------------------------------------------------------------------------
+// integer-typed level filters (MinLevelFilter<u8>, MinLevelPathMap<u8>)
+// ---------------------------------------------------------------------------
+
+#[derive(Clone, Debug, PartialEq, Eq, Hash)]
+enum IntLvl {
+    Missing,
+    /// a number that fits the filter's level type, carried as i64 / u8 / u64 / i32
+    InRange(u8, u8),
+    OutOfRange(i64),
+    Text(String),
+    Bool(bool),
+    /// the float n + 0.5
+    Float(i32),
+    Null,
+}
+
+impl IntLvl {
+    fn unreadable_kind(&self) -> Option<&'static str> {
+        match self {
+            IntLvl::Missing | IntLvl::InRange(..) => None,
+            IntLvl::OutOfRange(_) => Some("out-of-range-integer"),
+            IntLvl::Text(_) => Some("text"),
+            IntLvl::Bool(_) => Some("bool"),
+            IntLvl::Float(_) => Some("float"),
+            IntLvl::Null => Some("null"),
+        }
+    }
+}
+
+fn gen_int_lvl(g: &mut Rng) -> IntLvl {
+    match g.below(12) {
+        0..=1 => IntLvl::Missing,
+        2..=5 => IntLvl::InRange(g.below(9) as u8, g.below(4) as u8),
+        6..=7 => IntLvl::OutOfRange(*g.pick(&[256i64, 300, -1, -128, 1 << 40, i64::MIN, i64::MAX])),
+        8 => IntLvl::Text(g.pick(&["3", "info", "", "0", "warn"]).to_string()),
+        9 => IntLvl::Bool(g.bool()),
+        10 => IntLvl::Float(g.irange(-2, 6) as i32),
+        _ => IntLvl::Null,
+    }
+}
+
+fn gen_int_rule(g: &mut Rng) -> (u8, Option<u8>) {
+    // half of the rules put the configured default and 0 (u8::default()) on different sides of the minimum
+    if g.bool() {
+        let min = 1 + g.below(6) as u8;
+        return (min, Some(min + g.below(3) as u8));
+    }
+    (g.below(7) as u8, if g.bool() { Some(g.below(9) as u8) } else { None })
+}
+
+fn int_rule_real(rule: &(u8, Option<u8>)) -> MinLevelFilter<u8> {
+    let f = MinLevelFilter::new(rule.0);
+    match rule.1 {
+        Some(d) => f.treat_unleveled_as(d),
+        None => f,
+    }
+}
+
+fn int_rule_accepts(rule: &(u8, Option<u8>), lvl: &IntLvl) -> bool {
+    let level = match lvl {
+        IntLvl::InRange(v, _) => *v,
+        _ => rule.1.unwrap_or(0),
+    };
+    level >= rule.0
+}
+
+fn eval_int_views<F: Filter + Send + Sync + 'static>(f: &F, module: &str, lvl: &IntLvl) -> Result<Vec<(&'static str, bool)>, String> {
+    catch(|| {
+        let value: Option<Value> = match lvl {
+            IntLvl::Missing => None,
+            IntLvl::InRange(v, 0) => Some(Value::from(*v as i64)),
+            IntLvl::InRange(v, 1) => Some(Value::from(*v)),
+            IntLvl::InRange(v, 2) => Some(Value::from(*v as u64)),
+            IntLvl::InRange(v, _) => Some(Value::from(*v as i32)),
+            IntLvl::OutOfRange(n) => Some(Value::from(*n)),
+            IntLvl::Text(s) => Some(Value::from(s.as_str())),
+            IntLvl::Bool(b) => Some(Value::from(*b)),
+            IntLvl::Float(n) => Some(Value::from(*n as f64 + 0.5)),
+            IntLvl::Null => Some(Value::null()),
+        };
+        let after: [(&str, i64); 1] = [("lvl_", 200)];
+        answers(f, Path::new_ref_raw(module), value.map(|v| (KEY_LVL, v)).and_props(after))
+    })
+}
+
+fn int_case(r: &mut Report, seed: u64, index: u64) {
+    let mut g = Rng::stream(seed, &[17, 3, index]);
+    let rule = gen_int_rule(&mut g);
+    let plain = int_rule_real(&rule);
+    // a small path map: a, a::b registered, with or without a default
+    let regs: Vec<(String, (u8, Option<u8>))> = vec![("a".to_string(), gen_int_rule(&mut g)), ("a::b".to_string(), gen_int_rule(&mut g))];
+    let default = if g.bool() { Some(gen_int_rule(&mut g)) } else { None };
+    let mut by_calls = MinLevelPathMap::<u8>::new();
+    for (p, rule) in &regs {
+        by_calls.min_level(real_path(p, false), int_rule_real(rule));
+    }
+    let mut collected: MinLevelPathMap<u8> = regs.iter().map(|(p, rule)| (real_path(p, true), int_rule_real(rule))).collect();
+    if let Some(d) = &default {
+        by_calls.default_min_level(int_rule_real(d));
+        collected.default_min_level(int_rule_real(d));
+    }
+    let n_events = if cfg!(miri) { 3 } else { 12 };
+    for _ in 0..n_events {
+        let lvl = gen_int_lvl(&mut g);
+        let module = *g.pick(&["a", "a::b", "a::b::c", "a::c", "b", "ab"]);
+        r.eval();
+        let in_effect = if module == "a::b" || module == "a::b::c" {
+            Some(&regs[1].1)
+        } else if module == "a" || module == "a::c" {
+            Some(&regs[0].1)
+        } else {
+            default.as_ref()
+        };
+        let case = || json!({"section": "integer", "seed": seed, "index": index, "rule": format!("{:?}", rule), "registrations": format!("{:?}", regs), "default": format!("{:?}", default), "module": module, "lvl": format!("{:?}", lvl)});
+        let judge = |r: &mut Report, what: &str, want: bool, rule: Option<&(u8, Option<u8>)>, got: Result<Vec<(&'static str, bool)>, String>| {
+            if let (Some(kind), Some(rule)) = (lvl.unreadable_kind(), rule) {
+                r.observe(&format!("unreadable-level:{}:judged:{}", what, kind), 1);
+                if let Some(d) = rule.1 {
+                    if (d >= rule.0) != (0 >= rule.0) {
+                        r.observe(&format!("unreadable-level:{}:default-and-zero-on-different-sides", what), 1);
+                    }
+                }
+            }
+            r.observe(&format!("{}:judged", what), 1);
+            match got {
+                Err(m) => r.violation(&format!("C17:panic:{}", what), &format!("matches panicked: {}", m), case()),
+                Ok(v) => {
+                    if let Some((view, got)) = v.iter().find(|(_, a)| *a != want) {
+                        let sig = match lvl.unreadable_kind() {
+                            Some(kind) => format!("C17:min-level:unreadable-level:{}:{}:{}", kind, what, if want { "rejects" } else { "accepts" }),
+                            None => format!("C17:{}:{}", what, if want { "rejects" } else { "accepts" }),
+                        };
+                        r.violation(&sig, &format!("lvl {:?} against {:?} (module {:?}): {} answered {}, expected {}", lvl, rule, module, view, got, want), case());
+                    }
+                }
+            }
+        };
+        judge(r, "integer-filter", int_rule_accepts(&rule, &lvl), Some(&rule), eval_int_views(&plain, module, &lvl));
+        let want = in_effect.map(|rule| int_rule_accepts(rule, &lvl)).unwrap_or(true);
+        judge(r, "integer-path-map", want, in_effect, eval_int_views(&by_calls, module, &lvl));
+        judge(r, "integer-path-map", want, in_effect, eval_int_views(&collected, module, &lvl));
+        r.nontrivial(&("integer", &rule, &regs, &default, module, &lvl));
+    }
+}
+
+/// Every unreadable kind against every (minimum, unleveled default) rule of the Level filter.
+fn unreadable_table(r: &mut Report) {
+    let mut kinds: Vec<Unreadable> = vec![Unreadable::Empty, Unreadable::Null, Unreadable::Bool(true), Unreadable::Bool(false)];
+    kinds.extend(UNKNOWN_WORDS.iter().map(|w| Unreadable::Word(w.to_string())));
+    kinds.extend(MALFORMED.iter().map(|w| Unreadable::Malformed(w.to_string())));
+    kinds.extend(["3", "17", "-1", "0"].iter().map(|w| Unreadable::NumericText(w.to_string())));
+    kinds.extend([-3i64, 0, 1, 2, 3, 4, 40, i64::MAX].iter().map(|n| Unreadable::Int(*n)));
+    kinds.extend([-1, 0, 1, 2, 3].iter().map(|n| Unreadable::Float(*n)));
+    for u in kinds {
+        for min in 0..4usize {
+            for unleveled in [None, Some(0), Some(1), Some(2), Some(3)] {
+                let rule = Rule { min, unleveled };
+                let lvl = Lvl::Unreadable(u.clone());
+                let want = unleveled.unwrap_or(1) >= min;
+                r.eval();
+                r.observe("unreadable-level:table", 1);
+                r.nontrivial(&("unreadable", &u, &rule));
+                let case = || json!({"section": "unreadable", "lvl": format!("{:?}", u), "rule": format!("{:?}", rule)});
+                // the plain filter, and a path map using it for a registered module and as the default
+                let mut map = MinLevelPathMap::new();
+                map.min_level(Path::new_raw("a"), rule.real());
+                let mut dmap = MinLevelPathMap::new();
+                dmap.default_min_level(rule.real());
+                for (what, got) in [
+                    ("filter", eval_views(&rule.real(), "a", false, &lvl, false)),
+                    ("path-map:registered", eval_views(&map, "a::b", false, &lvl, true)),
+                    ("path-map:default", eval_views(&dmap, "b", false, &lvl, false)),
+                ] {
+                    match got {
+                        Err(m) => r.violation(&format!("C17:panic:unreadable-level:{}", u.kind()), &format!("matches panicked: {}", m), case()),
+                        Ok(v) => {
+                            if let Some((view, got)) = v.iter().find(|(_, a)| *a != want) {
+                                r.violation(
+                                    &format!("C17:min-level:unreadable-level:{}:{}:{}:{}", u.kind(), what, if unleveled.is_some() { "with-default" } else { "info" }, if want { "rejects" } else { "accepts" }),
+                                    &format!("lvl {:?} cannot be read as a level, so {:?} judges the event by {}: {} answered {}, expected {}", u, rule, unleveled.map(lname).unwrap_or("Info"), view, got, want),
+                                    case(),
+                                );
+                            }
+                        }
+                    }
+                }
+            }
+        }
+    }
+    r.exhaustive("every unreadable lvl value (empty, null, bools, 14 unknown words, 6 malformed texts, numeric texts, integers, floats) x every minimum x every unleveled default (none / each level) through the plain filter, a registered path-map rule and the map default");
 }
 
 fn pad_kind(p: &str) -> &'static str {
@@ -964,6 +1249,8 @@ fn main() {
             Some("filter") => filter_case(&mut r, seed, index),
             Some("named") => named_scenarios(&mut r),
             Some("long") => long_renderings(&mut r),
+            Some("integer") => int_case(&mut r, seed, index),
+            Some("unreadable") => unreadable_table(&mut r),
             _ => text_forms(&mut r),
         }
         std::process::exit(r.finish());
@@ -972,9 +1259,12 @@ fn main() {
     text_forms(&mut r);
     named_scenarios(&mut r);
     long_renderings(&mut r);
+    unreadable_table(&mut r);
     let n_map = args.n(20_000, 1_600_000);
     par_cases(&mut r, &args, n_map, |i, r| map_case(r, seed, i));
     let n_filter = args.n(4_000, 200_000);
     par_cases(&mut r, &args, n_filter, |i, r| filter_case(r, seed, i));
+    let n_int = args.n(2_000, 100_000);
+    par_cases(&mut r, &args, n_int, |i, r| int_case(r, seed, i));
     std::process::exit(r.finish());
 }
